@@ -19,6 +19,7 @@
 
 import collections
 import dataclasses
+import numbers
 import functools
 
 from absl import logging
@@ -253,13 +254,26 @@ def register_dataclass_type_with_jax_tree_util(data_class):
         constructable from keyword arguments corresponding to the members exposed
         in instance.__dict__.
     """
-    flatten = lambda d: tuple(zip(*sorted(d.__dict__.items())))[::-1]
     field_names = frozenset(f.name for f in dataclasses.fields(data_class))
 
-    def unflatten(keys, values):
+    def _is_static(v):
+        # Python scalars, strings and callables (e.g. ConstantFactor.num_dim, the control
+        # function of NNControlGaussianConditional) are structure, not data: exported as
+        # children they would be traced by jit / vmap / scan.
+        return isinstance(v, (numbers.Number, str)) or callable(v)
+
+    def flatten(d):
+        items = sorted(d.__dict__.items())
+        keys = tuple(k for k, v in items if not _is_static(v))
+        static = tuple((k, v) for k, v in items if _is_static(v))
+        return tuple(d.__dict__[k] for k in keys), (keys, static)
+
+    def unflatten(aux, values):
         # instance attributes that are not dataclass fields (e.g. cached lnZ, mu of a
         # GaussianMeasure) cannot go through the constructor: restore them afterwards.
+        keys, static = aux
         kwargs = dict(zip(keys, values))
+        kwargs.update(static)
         obj = data_class(**{k: v for k, v in kwargs.items() if k in field_names})
         for k, v in kwargs.items():
             if k not in field_names:
